@@ -46,11 +46,13 @@ import (
 	"testing"
 	"time"
 
+	"github.com/pingcap/failpoint"
 	"github.com/pingcap/kvproto/pkg/coprocessor"
 	"github.com/pingcap/kvproto/pkg/kvrpcpb"
 	"github.com/pkg/errors"
 	"github.com/tikv/client-go/v2/config"
 	"github.com/tikv/client-go/v2/tikvrpc"
+	"github.com/tikv/client-go/v2/util"
 	"github.com/tikv/client-go/v2/util/async"
 	"github.com/tikv/client-go/v2/verifh/vrep"
 	"google.golang.org/grpc"
@@ -263,6 +265,9 @@ func c18GenScn(rng *rand.Rand, idx int, shape string) *c18Scn {
 		s.DialMs = 1500
 	case "directed-stale-epoch-fwd", "directed-stale-epoch-direct":
 		s.MaxBatch, s.Conns, s.Fwd, s.HoldPct, s.ShufflePct, s.Callers = 128, 1, true, 0, 0, 1
+	case "directed-close-queue", "directed-close-queue-2":
+		s.MaxBatch, s.Conns, s.Fwd, s.HoldPct, s.ShufflePct, s.Callers = 128, uint(pick(1, 2)), false, 0, 0, 1
+		s.DialMs = 500
 	case "conn-blackhole", "conn-closeaccept", "conn-latestart", "conn-neverup", "conn-restart-recreate":
 		// the first requests of a (re-)created connection meet a store that is down, black-holed or restarting, with
 		// time-outs on both sides of the dial time-out and cancellations during that phase
@@ -1067,10 +1072,11 @@ func (run *c18Run) evaluate(all []*c18Call) {
 func TestVerifC18BatchMultiplex(t *testing.T) {
 	r := vrep.New("C18", "c18-batch-multiplex", "real RPCClient against a scripted gRPC echo server; one evaluation per call (exactly-once, identity, result shape, watchdog) and per stream re-creation (FIFO completion check); distinct = scenario classes (shape, batch/conn config, forwarding, set of outcome kinds, faults that actually happened) in which at least one call succeeded while responses were reordered/held/split or other calls failed")
 	defer r.Finish(t)
+	util.EnableFailpoints() // before any client exists; only directed-close-queue enables one (by name, for a few ms)
 	rng := vrep.Rand("c18-scenarios")
 	reps := vrep.Pick(2, 8)
 	var scns []*c18Scn
-	for _, sh := range []string{"directed-stale-epoch-fwd", "directed-stale-epoch-direct"} {
+	for _, sh := range []string{"directed-stale-epoch-fwd", "directed-stale-epoch-direct", "directed-close-queue", "directed-close-queue-2"} {
 		scns = append(scns, c18GenScn(rng, len(scns), sh))
 	}
 	for rep := 0; rep < reps; rep++ {
@@ -1164,6 +1170,10 @@ func TestVerifC18BatchMultiplex(t *testing.T) {
 	r.Floor("front_refuse", 2)
 	r.Floor("front_never_up", 1)
 	r.Floor("closeaddr_while_down", 2)
+	r.Floor("closeq_rounds", 16)
+	r.Floor("closeq_rounds_queue_intact", 10)
+	r.Floor("closeq_rounds_async_behind_sync", 8)
+	r.Floor("closeq_async_nodeadline", 20)
 	r.Floor("rl_ok", 1200*q)
 	r.Floor("rl_ok_dup", 200*q)
 	r.Floor("rl_ok_other_region", 200*q)
@@ -1204,6 +1214,8 @@ func c18Common(a, b []string) []string {
 var c18Directed = map[string]func(run *c18Run){
 	"directed-stale-epoch-fwd":    c18ScriptStaleEpoch("", "fwd-a:20160"),
 	"directed-stale-epoch-direct": c18ScriptStaleEpoch("fwd-a:20160", ""),
+	"directed-close-queue":        c18ScriptCloseQueue,
+	"directed-close-queue-2":      c18ScriptCloseQueue,
 }
 
 // c18ScriptStaleEpoch: one connection carries a direct and a forwarded stream.  The stream `first` fails and is
@@ -1313,4 +1325,115 @@ func c18FrontMode(name string) int {
 		}
 	}
 	return c18FrontNone
+}
+
+// c18ScriptCloseQueue: the pool is closed while sync AND async requests are queued, in a chosen order, behind a send
+// loop that is busy with an earlier batch (failpoint mockBatchClientSendDelay).  When the loop comes back it picks at
+// random between the queue and `closed`; repeated rounds see both.  Whatever it picks and whatever the order in the
+// queue: every sync call returns, every async callback is invoked exactly once (the deadline-less ones are judged by
+// the common tail, after the client has been closed and everything is quiet).
+func c18ScriptCloseQueue(run *c18Run) {
+	rng := rand.New(rand.NewSource(run.scn.Seed ^ 0xc105e))
+	const fp = "tikvclient/mockBatchClientSendDelay"
+	defer failpoint.Disable(fp)
+	seq := 0
+	mk := func(what byte) *c18Call {
+		c := &c18Call{caller: -2, seq: seq, done: make(chan struct{}), kind: seq % c18NPlainKinds, timeout: run.scn.LongTimeout,
+			id: fmt.Sprintf("v%d.%d/closeq/q%d", run.factor, run.scn.Idx, seq)}
+		seq++
+		switch what {
+		case 'a': // async, no deadline
+			c.async, c.timeout = true, 0
+		case 'd': // async with a deadline
+			c.async, c.timeout = true, 300*time.Millisecond
+		case 'c': // async, cancelled while queued
+			c.async, c.timeout, c.cancelMode, c.cancelDelay = true, 0, c18CancelDelay, time.Duration(1+rng.Intn(20))*time.Millisecond
+		case 'x': // sync, cancelled while queued
+			c.cancelMode, c.cancelDelay = c18CancelDelay, time.Duration(1+rng.Intn(20))*time.Millisecond
+		}
+		return c
+	}
+	patterns := []string{"sa", "asa", "sssasd", "aadsaca", "sca", "aa", "xasa", "sda", "ssssa", "asasasa"}
+	queueLen := func() int {
+		run.rpc.RLock()
+		defer run.rpc.RUnlock()
+		if p := run.rpc.connPools[run.srv.addr]; p != nil && p.batchConn != nil {
+			return len(p.batchConn.batchCommandsCh)
+		}
+		return -1
+	}
+	waitFor := func(cond func() bool, d time.Duration) bool {
+		for end := time.Now().Add(d); time.Now().Before(end); time.Sleep(200 * time.Microsecond) {
+			if cond() {
+				return true
+			}
+		}
+		return cond()
+	}
+	rounds := vrep.Pick(12, 40)
+	for round := 0; round < rounds; round++ {
+		pat := patterns[rng.Intn(len(patterns))]
+		if round < len(patterns) {
+			pat = patterns[round]
+		}
+		// a fresh pool with an established stream, so that nothing but the failpoint delays the send loop
+		warm := mk('s')
+		run.issue(warm)
+		if warm.err != nil {
+			run.count("closeq_rounds_warmup_failed", 1)
+			time.Sleep(10 * time.Millisecond)
+			continue
+		}
+		failpoint.Enable(fp, "return(40)")
+		var wg sync.WaitGroup
+		launch := func(c *c18Call) {
+			wg.Add(1)
+			go func() {
+				defer wg.Done()
+				run.issue(c)
+			}()
+		}
+		launch(mk('s')) // the batch that keeps the send loop busy
+		waitFor(func() bool { return queueLen() == 0 }, 20*time.Millisecond)
+		time.Sleep(2 * time.Millisecond)
+		intact := true
+		for i := 0; i < len(pat); i++ {
+			launch(mk(pat[i]))
+			if !waitFor(func() bool { return queueLen() >= i+1 }, 15*time.Millisecond) {
+				intact = false
+			}
+		}
+		if queueLen() != len(pat) {
+			intact = false
+		}
+		run.count("closeq_rounds", 1)
+		if intact {
+			run.count("closeq_rounds_queue_intact", 1)
+			if i := strings.IndexAny(pat, "sx"); i >= 0 && strings.ContainsAny(pat[i:], "adc") {
+				run.count("closeq_rounds_async_behind_sync", 1)
+			}
+		}
+		run.count("closeq_async_nodeadline", strings.Count(pat, "a"))
+		switch k := rng.Intn(6); {
+		case round == rounds-1:
+			run.count("client_close_midway", 1)
+			run.closed.Store(true)
+			run.cl.Close()
+		case k == 0: // what the idle recycler calls
+			run.rpc.RLock()
+			ver := uint64(0)
+			if p := run.rpc.connPools[run.srv.addr]; p != nil {
+				ver = p.ver
+			}
+			run.rpc.RUnlock()
+			run.count("closeaddr", 1)
+			run.rpc.CloseAddrVer(run.srv.addr, ver)
+		default:
+			run.count("closeaddr", 1)
+			run.rpc.CloseAddr(run.srv.addr)
+		}
+		failpoint.Disable(fp)
+		wg.Wait() // the sync callers come back by themselves; the async ones are judged by the common tail
+		time.Sleep(45 * time.Millisecond)
+	}
 }
